@@ -825,6 +825,12 @@ int __wrap_getrlimit(int res, struct rlimit *rl)
 }
 int __wrap_getrlimit64(int res, struct rlimit *rl) { return __wrap_getrlimit(res, rl); }
 
+/* flags and mask of the PARENT's handlers (per real process: the forked child inherits a copy, as it should) */
+static struct { int flags; uint64_t mask; int set_flags; uint64_t set_mask; } sk_sa[65];
+static uint64_t set_to_bits(const sigset_t *s);
+static void bits_to_set(uint64_t b, sigset_t *s);
+void sk_set_sigact(int sig, int flags, uint64_t mask) { sk_sa[sig].flags = sk_sa[sig].set_flags = flags; sk_sa[sig].mask = sk_sa[sig].set_mask = mask; }
+int sk_sigact_intact(int sig) { return sk_sa[sig].flags == sk_sa[sig].set_flags && sk_sa[sig].mask == sk_sa[sig].set_mask; }
 int __wrap_sigaction(int sig, const struct sigaction *act, struct sigaction *old)
 {
   int e = fault(FK_SIGACTION);
@@ -835,12 +841,25 @@ int __wrap_sigaction(int sig, const struct sigaction *act, struct sigaction *old
   if (old) {
     memset(old, 0, sizeof *old);
     old->sa_handler = p->disp[sig] == 0 ? SIG_DFL : p->disp[sig] == 1 ? SIG_IGN : (void (*)(int)) 0x1000;
+    old->sa_flags = sk_sa[sig].flags;
+    bits_to_set(sk_sa[sig].mask, &old->sa_mask);
   }
   if (act) {
     p->disp[sig] = act->sa_handler == SIG_DFL ? 0 : act->sa_handler == SIG_IGN ? 1 : 2;
+    sk_sa[sig].flags = act->sa_flags; sk_sa[sig].mask = set_to_bits(&act->sa_mask);
     sk_logev(LK_SIGACT, sig, p->disp[sig], 0, 0);
   }
   return 0;
+}
+/* signal(): BSD semantics as in glibc - SA_RESTART, empty mask; the old handler alone is returned (flags and mask are lost) */
+extern void (*__real_signal(int, void (*)(int)))(int);
+void (*__wrap_signal(int sig, void (*h)(int)))(int)
+{
+  if (!K || !K->in_api) return __real_signal(sig, h);   /* the harness's own use */
+  struct sigaction a, o;
+  memset(&a, 0, sizeof a); a.sa_handler = h; a.sa_flags = SA_RESTART; sigemptyset(&a.sa_mask);
+  if (__wrap_sigaction(sig, &a, &o) != 0) return SIG_ERR;
+  return o.sa_handler;
 }
 
 static uint64_t set_to_bits(const sigset_t *s)
